@@ -418,6 +418,7 @@ package saml2
 //@     invariant [C09] certok: decryptCert != nil ==> KeyOK(decryptCert.PrivateKey)
 //@     invariant [C09] rooted: el.parent != nil
 //@     visit [C07, C01] direct: old($m.parent) == el
+//@     nohalt [C11, C07]
 
 // ---------------------------------------------------------------------------
 // Inbound entry points
@@ -468,6 +469,7 @@ package saml2
 //@     invariant [C04] flag: !decodedResponse.SignatureValidated
 //@     invariant [C01] src: decodedResponse.$src == unverifiedResponse
 //@     visit [C01] direct: old($m.parent) == unverifiedResponse
+//@     nohalt [C01, C08]
 
 //@ func (sp *SAMLServiceProvider) ValidateEncodedLogoutResponsePOST(encodedResponse string) (res *types.LogoutResponse, err error)
 //@   requires InboundOK(sp)
